@@ -119,6 +119,12 @@ pub mod verif_clock {
         TOKIO_MODE.store(true, Ordering::SeqCst);
     }
 
+    /// Nanoseconds elapsed on the virtual clock since the base.
+    pub fn elapsed_ns() -> u128 {
+        let (std_base, _) = *base();
+        now_std().saturating_duration_since(std_base).as_nanos()
+    }
+
     pub(super) fn now_std() -> StdInstant {
         let (std_base, tokio_base) = *base();
         if TOKIO_MODE.load(Ordering::SeqCst) {
